@@ -90,6 +90,21 @@ func (s *S3Proxy) ListBuckets(ctx context.Context, input s3response.ListBucketsI
 
 	var buckets []s3response.ListAllMyBucketsEntry
 	for _, b := range output.Buckets {
+		if !input.IsAdmin {
+			// a non-admin is shown the buckets the gateway records it as
+			// the owner of, as the other backends do
+			data, err := s.GetBucketAcl(ctx, &s3.GetBucketAclInput{Bucket: b.Name})
+			if err != nil {
+				return s3response.ListAllMyBucketsResult{}, err
+			}
+			acl, err := auth.ParseACL(data)
+			if err != nil {
+				return s3response.ListAllMyBucketsResult{}, err
+			}
+			if acl.Owner != input.Owner {
+				continue
+			}
+		}
 		buckets = append(buckets, s3response.ListAllMyBucketsEntry{
 			Name:         *b.Name,
 			CreationDate: *b.CreationDate,
@@ -98,7 +113,7 @@ func (s *S3Proxy) ListBuckets(ctx context.Context, input s3response.ListBucketsI
 
 	return s3response.ListAllMyBucketsResult{
 		Owner: s3response.CanonicalUser{
-			ID: *output.Owner.ID,
+			ID: input.Owner,
 		},
 		Buckets: s3response.ListAllMyBucketsList{
 			Bucket: buckets,
